@@ -10,7 +10,7 @@ import hub_ctl as hc
 
 # c2 ends in a long run of zero bytes, c3 is nothing but zero bytes (sparse-file and "skip the zeros" shortcuts must
 # still deliver every byte that was hashed)
-CONTENTS = {"c1": b"A" * 9000 + b"one\n", "c2": b"B" * 12000 + b"two\n" + b"\0" * 150_000, "c3": b"\0" * 70_000}
+CONTENTS = {"c1": b"A" * 9000 + b"one\n", "c2": b"B" * 12000 + b"two\n" + b"\0" * 150_000, "c3": b"\0" * 262_144}          # c3: exactly one 256 KiB block (chunked streaming must not drop a final full block)
 CFG = {}
 
 # programs mirrored from spec/MC_Hub.tla (server id -> list of requests)
